@@ -178,6 +178,22 @@ example :
          st'.line.arr == 1 && arrOf h' 0 == [a, n, b]
      | none => false) = true := by decide
 
+/-- What the frame theorems exclude, on the model: the seeded rewrite `s.rest = s.rest[:0]` in the long-word
+branch (compacting into the caller's slice instead of `[]vaxis.Cell{}`).  The long-word loop started with that
+slice on "abcd" at width 3 returns the same values — token "abc", rest "d" — but has overwritten the caller's
+first cell: array 0 is "dbcd".  (`Good` fails for `cells[:0]`: it is neither full nor fresh.) -/
+example :
+    let mk : Nat → Cell := fun g => { g := g, w := 1, style := 0, sp := false, term := false, nl := false }
+    let txt := [mk 0, mk 1, mk 2, mk 3]
+    let r := splitLongH (fun c _ => 2 * c) 3 (callerSlice txt []) 0 4 (callerHeap txt []) (sub (callerSlice txt []) 0 0) emptySlice 0
+    read r.1 r.2.2 = [mk 0, mk 1, mk 2] ∧ read r.1 r.2.1 = [mk 3] ∧ arrOf r.1 0 = [mk 3, mk 1, mk 2, mk 3] ∧
+    ¬ Good 1 (callerHeap txt []) (sub (callerSlice txt []) 0 0) := by
+  refine ⟨by decide, by decide, by decide, ?_⟩
+  intro g
+  rcases g.1 with h | h
+  · revert h; decide
+  · revert h; decide
+
 /-- Non-vacuity: "aa aaaaa a" at width 3 (a long word is split, `s.rest` is rebuilt) gives the lines of
 the value-level model and leaves the caller's array as it was; and what the theorems exclude does
 happen for a slice that is *not* fresh — `append(cells[:0], x)` overwrites the caller's first cell. -/
